@@ -9,6 +9,7 @@ import (
 	"math/rand"
 	"os"
 	"sort"
+	"strings"
 
 	"github.com/google/badwolf/bql/grammar"
 	"github.com/google/badwolf/bql/lexer"
@@ -171,6 +172,164 @@ func main() {
 			}
 			rec(nil, *maxlen)
 		}
+	case "state":
+		// statelessness: the last statement of a sequence parsed on ONE parser/grammar value must be accepted or
+		// rejected, and mean, exactly what it does on a fresh one
+		rng := rand.New(rand.NewSource(*seed))
+		var pool []string
+		for _, st := range stmtCorpus {
+			pool = append(pool, st)
+			var toks []string
+			for t := range lexer.New(st, 0) {
+				if t.Type != lexer.ItemEOF {
+					toks = append(toks, t.Text)
+				}
+			}
+			for k := 1; k < len(toks); k++ { // every token prefix = a rejected (truncated) statement
+				pool = append(pool, strings.Join(toks[:k], " "))
+			}
+		}
+		for _, k := range keys {
+			pool = append(pool, gram.Render(ws[k]))
+		}
+		type stRes struct {
+			Kind           string   `json:"kind"`
+			Seq            []string `json:"seq"`
+			Same           bool     `json:"same"`
+			Shared         string   `json:"shared"`
+			Fresh          string   `json:"fresh"`
+			SameAfterFlush bool     `json:"same_after_flush"`
+		}
+		one := func(seq []string) {
+			sg := grammar.SemanticBQL()
+			p, _ := grammar.NewParser(sg)
+			var shared string
+			for _, txt := range seq {
+				shared = parseDump(p, txt)
+			}
+			fp, _ := grammar.NewParser(grammar.SemanticBQL())
+			fresh := parseDump(fp, seq[len(seq)-1])
+			res := stRes{Kind: "state", Seq: seq, Same: shared == fresh, Shared: shared, Fresh: fresh}
+			if !res.Same {
+				// classifier of the known finding "stale lastNopToken": the difference disappears when a statement that
+				// makes every WHERE/VARS hook closure drop its lastNopToken is parsed in between
+				const flush = `select count(?a) as ?b from ?g where { /u<a> "p"@[] /u<b> };`
+				p2, _ := grammar.NewParser(grammar.SemanticBQL())
+				for _, txt := range seq[:len(seq)-1] {
+					parseDump(p2, txt)
+				}
+				parseDump(p2, flush)
+				res.SameAfterFlush = parseDump(p2, seq[len(seq)-1]) == fresh
+			}
+			enc.Encode(res)
+		}
+		// all ordered pairs (prefix-or-statement, full statement) from the corpus first: systematic
+		if *maxlen > 0 {
+			for _, a := range pool {
+				for _, b := range stmtCorpus {
+					one([]string{a, b})
+				}
+			}
+		}
+		for i := 0; i < *n; i++ {
+			k := 2 + rng.Intn(3)
+			var seq []string
+			for j := 0; j < k-1; j++ {
+				seq = append(seq, pool[rng.Intn(len(pool))])
+			}
+			seq = append(seq, stmtCorpus[rng.Intn(len(stmtCorpus))])
+			one(seq)
+		}
+	case "hooks":
+		// drive the exported stateful hook closures directly with token sequences (kind, text valid?) and record,
+		// per step, what the closure did: the observations the machines of coq/Grammar/Hooks.v predict
+		rng := rand.New(rand.NewSource(*seed))
+		type step struct {
+			K   int    `json:"k"`
+			Ok  bool   `json:"ok"`
+			Out string `json:"out"`
+		}
+		type hrun struct {
+			Kind  string `json:"kind"`
+			Hook  string `json:"hook"`
+			Steps []step `json:"steps"`
+		}
+		text := func(k int, ok bool) string {
+			if ok {
+				switch lexer.TokenType(k) {
+				case lexer.ItemPredicateBound:
+					return "2016-01-01T00:00:00-08:00,2017-01-01T00:00:00-08:00"
+				}
+				return gram.Lexeme(k)
+			}
+			switch lexer.TokenType(k) {
+			case lexer.ItemNode:
+				return "/u<a"
+			case lexer.ItemPredicate:
+				return "\"p\"@[x]"
+			case lexer.ItemLiteral:
+				return "\"x\"^^type:int64"
+			case lexer.ItemTime:
+				return "2016-13-45"
+			case lexer.ItemPredicateBound:
+				return "2016-01-01T00:00:00-08:00,zzz"
+			}
+			return gram.Lexeme(k)
+		}
+		daKinds := []int{int(lexer.ItemInsert), int(lexer.ItemDelete), int(lexer.ItemNode), int(lexer.ItemPredicate), int(lexer.ItemLiteral),
+			int(lexer.ItemData), int(lexer.ItemDot), int(lexer.ItemLBracket), int(lexer.ItemBinding)}
+		gbKinds := []int{int(lexer.ItemBefore), int(lexer.ItemAfter), int(lexer.ItemBetween), int(lexer.ItemComma), int(lexer.ItemTime),
+			int(lexer.ItemPredicateBound), int(lexer.ItemSemicolon)}
+		for i := 0; i < *n; i++ {
+			// several statements' worth of tokens through ONE closure: history matters
+			for _, which := range []string{"dataAccumulator", "collectGlobalBounds"} {
+				kinds := daKinds
+				hook := semantic.DataAccumulatorHook()
+				if which == "collectGlobalBounds" {
+					kinds = gbKinds
+					hook = semantic.CollectGlobalBounds()
+				}
+				r := hrun{Kind: "hooks", Hook: which}
+				st := &semantic.Statement{}
+				st.ResetWorkingGraphClause()
+				ln := 1 + rng.Intn(9)
+				for j := 0; j < ln; j++ {
+					k := kinds[rng.Intn(len(kinds))]
+					ok := rng.Intn(5) != 0
+					nData := len(st.Data())
+					lo, up := st.GlobalLookupOptions().LowerAnchor, st.GlobalLookupOptions().UpperAnchor
+					out := func() (o string) {
+						defer func() {
+							if rec := recover(); rec != nil {
+								o = "panic"
+							}
+						}()
+						_, err := hook(st, semantic.NewConsumedToken(&lexer.Token{Type: lexer.TokenType(k), Text: text(k, ok)}))
+						if err != nil {
+							return "err"
+						}
+						l2, u2 := st.GlobalLookupOptions().LowerAnchor, st.GlobalLookupOptions().UpperAnchor
+						switch {
+						case len(st.Data()) > nData:
+							return "emit"
+						case l2 != lo && u2 != up:
+							return "both"
+						case l2 != lo:
+							return "lower"
+						case u2 != up:
+							return "upper"
+						}
+						return "none"
+					}()
+					r.Steps = append(r.Steps, step{k, ok, out})
+					if out == "err" || out == "panic" {
+						// the parser aborts the statement here; the SAME closure then serves the next statement
+						continue
+					}
+				}
+				enc.Encode(r)
+			}
+		}
 	case "dead":
 		// failing-input search for C17: alternatives no sentence reaches, and the structural reason
 		type dead struct {
@@ -232,4 +391,72 @@ func main() {
 		fmt.Fprintln(os.Stderr, "unknown mode")
 		os.Exit(2)
 	}
+}
+
+// parseDump parses txt with p into a fresh Statement and renders outcome + meaning through exported accessors.
+func parseDump(p *grammar.Parser, txt string) (out string) {
+	defer func() {
+		if r := recover(); r != nil {
+			out = fmt.Sprintf("PANIC")
+		}
+	}()
+	st := &semantic.Statement{}
+	if err := p.Parse(grammar.NewLLk(txt, 1), st); err != nil {
+		return "ERR"
+	}
+	var b strings.Builder
+	fmt.Fprintf(&b, "type=%v graphs=%v in=%v out=%v", st.Type(), st.GraphNames(), st.InputGraphNames(), st.OutputGraphNames())
+	for _, d := range st.Data() {
+		fmt.Fprintf(&b, " data=%s", d.String())
+	}
+	for _, c := range st.GraphPatternClauses() {
+		fmt.Fprintf(&b, " clause=%s", c.String())
+	}
+	for _, f := range st.FilterClauses() {
+		fmt.Fprintf(&b, " filter=%s", f.String())
+	}
+	for _, pr := range st.Projections() {
+		fmt.Fprintf(&b, " proj=%s", pr.String())
+	}
+	for _, c := range st.ConstructClauses() {
+		fmt.Fprintf(&b, " construct=%s", c.String())
+	}
+	fmt.Fprintf(&b, " groupby=%v orderby=%s having=%v", st.GroupByBindings(), st.OrderByConfig().String(), st.HasHavingClause())
+	for _, h := range st.HavingExpression() {
+		if h.IsSymbol() {
+			fmt.Fprintf(&b, " hs=%s", h.Symbol())
+		} else {
+			fmt.Fprintf(&b, " ht=%d:%s", h.Token().Type, h.Token().Text)
+		}
+	}
+	fmt.Fprintf(&b, " limitset=%v limit=%d lo=%s", st.IsLimitSet(), st.Limit(), st.GlobalLookupOptions().String())
+	return b.String()
+}
+
+var stmtCorpus = []string{
+	`create graph ?a;`,
+	`create graph ?a, ?b;`,
+	`drop graph ?a, ?b;`,
+	`show graphs;`,
+	`insert data into ?a {/u<joe> "parent_of"@[] /u<mary>};`,
+	`insert data into ?a, ?b {/u<joe> "parent_of"@[] /u<mary> . /u<joe> "bought"@[2016-01-01T00:00:00-08:00] /c<mini> . /u<joe> "age"@[] "31"^^type:int64};`,
+	`delete data from ?a {/u<joe> "parent_of"@[] /u<mary> . /u<p> "n"@[] "x"^^type:text};`,
+	`select ?s from ?a where {?s "parent_of"@[] ?o};`,
+	`select ?s, ?o as ?x from ?a, ?b where {?s "parent_of"@[] ?o . ?o "parent_of"@[] ?z};`,
+	`select ?s, ?p, ?o from ?a where {?s ?p ?o} before 2016-03-01T00:00:00-08:00;`,
+	`select ?s, ?p, ?o from ?a where {?s ?p ?o} after 2016-02-01T00:00:00-08:00;`,
+	`select ?s, ?p, ?o from ?a where {?s ?p ?o} between 2016-02-01T00:00:00-08:00, 2016-03-01T00:00:00-08:00;`,
+	`select ?s, count(?o) as ?n from ?a where {?s "p"@[] ?o} group by ?s order by ?n desc, ?s asc having ?n > "1"^^type:int64 limit "3"^^type:int64;`,
+	`select ?s, sum(?o) as ?t, count(distinct ?o) as ?d from ?a where {?s "p"@[] ?o} group by ?s;`,
+	`select ?o from ?a where {/u<joe> as ?j id ?i type ?t "bought"@[?when] as ?pa id ?pi at ?w ?o as ?oa type ?ot id ?oi};`,
+	`select ?o from ?a where {/u<joe> "bought"@[2016-01-01T00:00:00-08:00,2017-01-01T00:00:00-08:00] ?o};`,
+	`select ?o from ?a where {/u<joe> "bought"@[?lo,?hi] as ?p ?o at ?x};`,
+	`select ?s from ?a where {?s "p"@[] ?o . optional {?o "q"@[] ?z}};`,
+	`select ?s from ?a where {?s ?p ?o . filter latest(?p)};`,
+	`select ?s from ?a where {?s ?p ?o . filter isTemporal(?p) . filter isImmutable(?o)};`,
+	`select ?s from ?a where {?s "p"@[] ?o} having (?s = /u<joe>) or not (?o < "3"^^type:int64) and ?s = ?o;`,
+	`select ?s from ?a where {?s "t"@[?t] ?o} having ?t > 2016-01-01T00:00:00-08:00;`,
+	`construct {?s "knows"@[] ?o} into ?b from ?a where {?s "parent_of"@[] ?o};`,
+	`construct {?s "knows"@[?t] ?o ; "since"@[] ?t . _:v "x"@[] ?s} into ?b, ?c from ?a where {?s "bought"@[?t] ?o} having ?s = /u<joe>;`,
+	`deconstruct {?s "knows"@[] ?o} in ?b from ?a where {?s "parent_of"@[] ?o};`,
 }
